@@ -415,6 +415,77 @@ func rulesC08(c *Ctx) {
 		}
 	}
 	c.Floor("R4", n4, 2)
+	// Lifecycle.Error records everything it is handed: on every path the whole argument list is appended
+	// to the error list (no error is filtered out on the way into the list)
+	if le4 := c.P.Func(jobPkg, "Lifecycle", "Error"); le4 == nil {
+		c.Bad("R4", "jobsync.(*Lifecycle).Error records its arguments", 0, "anchor not found")
+	} else {
+		var evar *ssa.Parameter
+		for _, p := range le4.Params {
+			if sl, ok := p.Type().Underlying().(*types.Slice); ok && isErrorType(sl.Elem()) {
+				evar = p
+			}
+		}
+		isErrsStore := func(in ssa.Instruction) (*ssa.Call, bool) {
+			st, ok := in.(*ssa.Store)
+			if !ok {
+				return nil, false
+			}
+			fa, ok := st.Addr.(*ssa.FieldAddr)
+			if !ok || fieldName(fa) != "jobsync.Lifecycle.errors" {
+				return nil, false
+			}
+			app, ok := resolve(st.Val).(*ssa.Call)
+			if !ok {
+				return nil, false
+			}
+			if b, ok := app.Call.Value.(*ssa.Builtin); !ok || b.Name() != "append" || len(app.Call.Args) != 2 {
+				return nil, false
+			}
+			return app, true
+		}
+		okRec, why := false, "the error list is not extended with the arguments"
+		if evar != nil {
+			// form 1: errors = append(errors, e...) on every path
+			whole := func(in ssa.Instruction) bool {
+				app, ok := isErrsStore(in)
+				return ok && resolve(app.Call.Args[1]) == ssa.Value(evar)
+			}
+			any := false
+			eachInstr(le4, func(_ *ssa.BasicBlock, _ int, in ssa.Instruction) {
+				if whole(in) {
+					any = true
+				}
+			})
+			if any {
+				if bad := MustPass(le4, nil, whole); len(bad) == 0 {
+					okRec = true
+				} else {
+					why = "a return is reachable without the arguments having been appended to the error list"
+				}
+			} else {
+				// form 2: a loop over e whose body appends the element unconditionally
+				eachInstr(le4, func(b *ssa.BasicBlock, _ int, in ssa.Instruction) {
+					app, ok := isErrsStore(in)
+					if !ok {
+						return
+					}
+					for _, el := range appendedElemsOfCall(app) {
+						ia := elementSource(el)
+						if ia == nil || ia.X != ssa.Value(evar) || !ascendingIndex(ia.Index) {
+							continue
+						}
+						if ia.Block() == b {
+							okRec = true
+						} else {
+							why = "an argument is appended to the error list only on some paths of the loop (errors are filtered out): a callback or listing error of that kind never shows up"
+						}
+					}
+				})
+			}
+		}
+		c.Check(okRec, "R4", "jobsync.(*Lifecycle).Error records its arguments", le4.Pos(), "every argument is appended to the error list on every path", why+" — the walk reports success although a callback or listing failed")
+	}
 
 	// ---- R5 completion order -------------------------------------------------------------------
 	{
